@@ -1,12 +1,14 @@
 #!/bin/sh
 # usage: tools/eval_mutant.sh <patch.diff> <ID> [<ID> ...]   -- applies a seeded change to /repo, runs the quick checks, restores /repo
-PATCH="$1"; shift
+PATCH="$(realpath "$1")"; shift
 cd /verif || exit 2
 if [ -n "$(git -C /repo status --porcelain)" ]; then echo "/repo is not clean"; exit 2; fi
 git -C /repo apply "$PATCH" || { echo "patch does not apply"; exit 2; }
 trap 'git -C /repo checkout -- . ; git -C /repo clean -fdq -- src isoquant.py 2>/dev/null' EXIT INT TERM
 for id in "$@"; do
     echo "=== $id"
-    VERIF_SCRATCH_OUT=/tmp/iqverif-mutant-out timeout 1500 ./check "$id" 2>&1 | grep -v "^  detail\|KNOWN-FINDING" | cut -c1-260 | tail -8
-    echo "exit=$?"
+    VERIF_SCRATCH_OUT=/tmp/iqverif-mutant-out timeout 1500 ./check "$id" > /tmp/iqverif-mutant-out.log 2>&1
+    rc=$?
+    grep -v "^  detail\|KNOWN-FINDING" /tmp/iqverif-mutant-out.log | cut -c1-260 | tail -8
+    echo "check_exit=$rc"
 done
